@@ -246,3 +246,30 @@ func gluedTokens() []string {
 	})
 	return gluedItems
 }
+
+// ---- comment openers at every token boundary -----------------------------------------------------------
+
+var (
+	cmtOnce  sync.Once
+	cmtItems []string
+)
+
+// commentInsertions: multi-token statements with each blank replaced by each comment opener / one-line comment
+// (what the ANSI and the MySQL reading make of a comment in the middle of the five-token window, and whether the
+// re-parse gate follows).
+func commentInsertions() []string {
+	cmtOnce.Do(func() {
+		bases := []string{"id select password from users)", "1 union select 1 from t", "name' or id+ and (select 1)", "1 or 1=1 and 2=2 or 3", "foo bar baz qux quux corge", "x' and id (select 1) or 'a", "1 , 2 , 3 union select 4",
+			"a\" or id+ and (select 1)", "1 ) or ( 1 = 1 ) -- x", "id = 1 having 1 = 1 or 2"}
+		ins := []string{"--(\n", "--x\n", "--(", "--", "#x\n", "#", "/*x*/", "--\n", "-- \n", "--x"}
+		for _, b := range bases {
+			parts := strings.Split(b, " ")
+			for i := 1; i < len(parts); i++ {
+				for _, c := range ins {
+					cmtItems = append(cmtItems, strings.Join(parts[:i], " ")+c+strings.Join(parts[i:], " "), strings.Join(parts[:i], " ")+" "+c+strings.Join(parts[i:], " "))
+				}
+			}
+		}
+	})
+	return cmtItems
+}
